@@ -277,7 +277,7 @@ def f64_impl_consts(text, consts):
 LEMIRE = ["compute_float", "compute_product_approx", "power", "zero_pow2", "biased_fp_to_float"]
 
 def check_exponents(job):
-    mir_path, exps, tmo, oblig_tmo, interpret, both, lemire_range, neg_mode = job
+    mir_path, exps, tmo, oblig_tmo, interpret, both, lemire_range, neg_mode, trunc_mode = job
     text = open(mir_path).read()
     fns, consts = parse_mir(text)
     f64c = f64_impl_consts(text, consts)
@@ -297,13 +297,15 @@ def check_exponents(job):
     TINY = -308          # below this the result can be subnormal: the significand range is split by leading_zeros
     work = []
     for e in exps:
+        if trunc_mode and e <= TINY:
+            continue          # truncated significands are decided for exponents >= -307 only
         if lemire_range is not None and e <= TINY and e >= lemire_range[0]:
             for k in range(0, 64):
                 wlo, whi = max(1, 1 << (63 - k)), min(10 ** 19 - 1, (1 << (64 - k)) - 1)
                 if wlo <= whi:
                     work.append((e, k, wlo, whi))
         else:
-            work.append((e, None, 1, 10 ** 19 - 1))
+            work.append((e, None, (10 ** 16 if trunc_mode else 1), 10 ** 19 - 1))
     for e, pin_k, wlo, whi in work:
         if len(res["violations"]) >= 3 or any(v["exp10"] == e for v in res["violations"]):
             continue        # enough counterexamples to replay; satisfiable queries are the slow ones
@@ -317,13 +319,15 @@ def check_exponents(job):
             ctx.pin_lz = (w.s, pin_k, 64)
         neg = ctx.fresh("neg", None, None, "Bool")
         trunc = ctx.fresh("trunc", None, None, "Bool")
-        ctx.cons.append("(not %s)" % trunc.s)      # the claim is about significands with no digit dropped
+        # default: significands with no digit dropped.  --trunc: digits were dropped (then the scanner has kept >= 17
+        # digits, w >= 10^16, and the exact value lies in [w, w+1) * 10^e: the result must be the rounding of both ends)
+        ctx.cons.append(trunc.s if trunc_mode else "(not %s)" % trunc.s)
         ctx.base = len(ctx.cons)
         f = ip.find_fn("parse_float")
         try:
             if neg_mode == "false":
                 ctx.cons.append("(not %s)" % neg.s)      # sign handling is decided by the runs with a symbolic sign
-            outs = list(ip.run_fn(f, [w, e, (False if neg_mode == "false" else neg), False, Opq("raw_num")], ctx))
+            outs = list(ip.run_fn(f, [w, e, (False if neg_mode == "false" else neg), bool(trunc_mode), Opq("raw_num")], ctx))
         except (Unsupported, PathLimit) as ex:
             res["unsupported"].append((e, str(ex)))
             continue
@@ -348,10 +352,10 @@ def check_exponents(job):
                         finite = "(or %s)" % " ".join("(and (= %s %d) (< (* %d %s) %d))" % (lzt.s, k, 10 ** e, nt.s, thr << k) for k in range(64))
                     else:
                         finite = "(< (* %d %s) %d)" % (10 ** e, w.s, thr) if e >= 0 else "(< %s %d)" % (w.s, thr * 10 ** (-e))
-                    r, _ = solver.query(c.script(["(not %s)" % trunc.s, finite]))
+                    r, _ = solver.query(c.script([finite]))
                     res["decided_returns"] += 1
                     if r == "sat":
-                        vals = concretise(solver, c, w, neg, trunc, ["(not %s)" % trunc.s, finite], e)
+                        vals = concretise(solver, c, w, neg, trunc, [finite], e)
                         (res["violations"] if vals else res["unrealisable"]).append({"exp10": e, "w": (vals or {}).get(w.s), "neg": (vals or {}).get(neg.s), "kind": "rejected as infinite although the nearest double is finite", "trace": c.trace})
                     elif r == "unknown":
                         res["unknown"].append((e, "finite-rejected"))
@@ -390,7 +394,10 @@ def check_exponents(job):
                 # the magnitude: first under the callee's constraints only (shared by all the
                 # routes that reach the callee), then, if that is not unsat, under the whole path
                 c2 = c.fork()
-                spec = "(and (not %s) (not %s))" % (trunc.s, rounding_spec(c2, raw, w, e) if pin_k is None else rounding_spec_abs(c2, raw, w, e, wlo, whi))
+                if trunc_mode:
+                    spec = "(not (and %s %s))" % (rounding_spec(c2, raw, w, e), rounding_spec(c2, raw, add(w, 1), e))
+                else:
+                    spec = "(not %s)" % (rounding_spec(c2, raw, w, e) if pin_k is None else rounding_spec_abs(c2, raw, w, e, wlo, whi))
                 verdict = None
                 if c2.mark is not None:
                     key = canon(c2.script([spec], only_callee=True))
@@ -490,6 +497,7 @@ def main():
     ap.add_argument("--out", required=True)
     ap.add_argument("--lemire", default="", help="lo..hi: also interpret the Eisel-Lemire constructor for exponents in this range")
     ap.add_argument("--neg", default="sym", choices=["sym", "false"], help="sign flag symbolic (default) or fixed to false")
+    ap.add_argument("--trunc", action="store_true", help="the trunc flag is true: w >= 10^16 is a truncated significand, the result must be the rounding of w*10^e and of (w+1)*10^e")
     ap.add_argument("--both", action="store_true", help="ask both solvers on every rounding query and compare")
     ap.add_argument("--exps", default="", help="comma separated list instead of emin..emax")
     a = ap.parse_args()
@@ -503,7 +511,7 @@ def main():
     interpret = a.interpret.split(",")
     lem = [int(x) for x in a.lemire.split("..")] if a.lemire else None
     with multiprocessing.Pool(a.jobs) as pool:
-        parts = pool.map(check_exponents, [(mir_path, c, a.timeout_ms, a.oblig_timeout_ms, interpret, a.both, lem, a.neg) for c in chunks if c])
+        parts = pool.map(check_exponents, [(mir_path, c, a.timeout_ms, a.oblig_timeout_ms, interpret, a.both, lem, a.neg, a.trunc) for c in chunks if c])
     tot = {"violations": [], "unknown": [], "errors": [], "unsupported": [], "oblig_sat": [], "oblig_unknown": {},
            "opaque_calls": set(), "interpreted": set()}
     for k in ("decided_returns", "opaque_returns", "err_returns", "paths", "oblig_unsat", "queries", "solver_s", "cache_hits"):
